@@ -38,6 +38,16 @@ THEOREMS = [
     'AbacusVerif.Binning.Pn_two',
     'AbacusVerif.Binning.Pn_four',
     'AbacusVerif.Binning.kmu_pole_means',
+    'AbacusVerif.Binning.Pn_even_orders',
+    'AbacusVerif.Binning.PnMu_all_orders',
+    'AbacusVerif.Binning.PnMu_even',
+    'AbacusVerif.Binning.Pn_rejects_above_ten',
+    'AbacusVerif.Binning.kmu_pole_means_supported',
+    'AbacusVerif.Binning.shape_irrelevant',
+    'AbacusVerif.Binning.kmu_means_config_space',
+    'AbacusVerif.Binning.get_k_mu_edges_wellformed',
+    'AbacusVerif.Binning.calc_power_binnings_inbounds',
+    'AbacusVerif.Binning.sibling_fold_differs_only_odd_middle',
 ]
 DRIVER = 'drv_c08'
 RULE = ('every mesh size n in 1..12 (quick) / 1..24 (thorough), odd and even, x dtype float32/float64 x k-edge families '
@@ -67,14 +77,20 @@ MAXFAIL_PER_KEY = 2
 
 # --------------------------------------------------------------------------- the numbers the code computes
 
-def dk_of(L):
-    return 2.0 * np.pi / L
+def dk_of(L, n=None, fourier=True):
+    """dk = 2.0 * np.pi / L if fourier else L / n1d"""
+    return 2.0 * np.pi / L if fourier else L / n
 
 
-def sq_kedges(kedges, L, dt):
+def dkc(c):
+    return dk_of(c['L'], c['n'], c.get('fourier', True))
+
+
+def sq_kedges(c, kedges=None):
     """kedges2 = ((kedges / dk) ** 2).astype(dtype)   (power_spectrum.py, bin_kmu / bin_kppi)"""
-    dk = dk_of(L)
-    return ((np.asarray(kedges, dtype=np.float64) / dk) ** 2).astype(DT[dt])
+    dk = dkc(c)
+    kedges = c['kedges'] if kedges is None else kedges
+    return ((np.asarray(kedges, dtype=np.float64) / dk) ** 2).astype(DT[c['dtype']])
 
 
 def sq_mu(muedges, dt):
@@ -82,10 +98,10 @@ def sq_mu(muedges, dt):
     return (np.asarray(muedges, dtype=np.float64) ** 2).astype(DT[dt])
 
 
-def sq_pi(pimax, npi, L, dt):
+def sq_pi(c):
     """piedges2 = ((np.linspace(0.0, pimax, Npi + 1) / dk) ** 2).astype(dtype)"""
-    dk = dk_of(L)
-    return ((np.linspace(0.0, pimax, npi + 1) / dk) ** 2).astype(DT[dt])
+    dk = dkc(c)
+    return ((np.linspace(0.0, c['pimax'], c['npi'] + 1) / dk) ** 2).astype(DT[c['dtype']])
 
 
 def rat(x):
@@ -110,10 +126,18 @@ def frac(s):
 # --------------------------------------------------------------------------- meshes
 
 def half_mesh(c):
+    """the `weights` array handed to the kernel: a half-complex mesh (n, n, n//2+1), or for fourier=False a full
+    real-space mesh (n, n, n) with Xi(-r) = Xi(r) (integer valued: P + P reflected)"""
     n = c['n']
     kz = n // 2 + 1
     N = n * n * kz
     rng = np.random.default_rng(c['mesh_seed'])
+    if not c.get('fourier', True):
+        P = (rng.permutation(n ** 3) + 1).astype(np.float64).reshape(n, n, n)
+        if c.get('mesh_kind') == 'signed':
+            P -= n ** 3 // 2
+        neg = (-np.arange(n)) % n
+        return P + P[neg][:, neg][:, :, neg]
     if c.get('mesh_kind', 'perm') == 'perm':
         m = (rng.permutation(N) + 1).astype(np.float64)
     elif c['mesh_kind'] == 'signed':
@@ -121,6 +145,11 @@ def half_mesh(c):
     else:   # generic floats (dyadic with 20 fractional bits so the model's rationals stay small)
         m = np.round(rng.normal(size=N) * 2 ** 20) / 2 ** 20 * 100
     return m.reshape(n, n, kz)
+
+
+def full_of(c, mesh):
+    """the full mesh the kernel's `weights` stands for"""
+    return full_from_half(mesh, c['n']) if c.get('fourier', True) else mesh
 
 
 def full_from_half(h, n):
@@ -159,7 +188,7 @@ def mu_first_le(C2, q, tail):
     return le.argmax(-1), le.any(-1), r
 
 
-def oracle_kmu(n, ek2, em2, poles, half):
+def oracle_kmu(n, ek2, em2, poles, full):
     """brute force over the full n^3 mesh.  ek2/em2 float64 arrays holding exactly the dtype values."""
     f = np.rint(np.fft.fftfreq(n) * n).astype(np.int64)
     A, B, C = np.meshgrid(f, f, f, indexing='ij')
@@ -170,7 +199,6 @@ def oracle_kmu(n, ek2, em2, poles, half):
     inr = (qf >= ek2[0]) & (qf < ek2[-1])
     bk, okk = first_le(qf, ek2[1:])
     bm, okm, r = mu_first_le(C2, q, em2[1:])
-    full = full_from_half(half, n)
     sel = inr
     assert bool(np.all(okk[sel])), 'oracle: in-range mode without a k bin'
     out = {'mu_unbinned': int(np.sum(sel & ~okm))}
@@ -201,7 +229,7 @@ def oracle_kmu(n, ek2, em2, poles, half):
     return out
 
 
-def oracle_kppi(n, ek2, ep2, half):
+def oracle_kppi(n, ek2, ep2, full):
     f = np.rint(np.fft.fftfreq(n) * n).astype(np.int64)
     A, B, C = np.meshgrid(f, f, f, indexing='ij')
     p = (A * A + B * B).astype(np.float64)
@@ -211,7 +239,6 @@ def oracle_kppi(n, ek2, ep2, half):
     bk, okk = first_le(p, ek2[1:])
     bp, okp = first_le(c2, ep2[1:])
     assert bool(np.all(okk[inr])) and bool(np.all(okp[inr]))
-    full = full_from_half(half, n)
     flat = bk[inr] * npi + bp[inr]
     size = nk * npi
     F = full[inr]
@@ -293,25 +320,31 @@ def attained_q(n):
     return np.unique(A * A + B * B + C * C)
 
 
-def kedge_families(ctx, rng, n, dt, ps):
-    """[(family, L, kedges)]"""
+def kedge_families(ctx, rng, n, dt, ps, fourier=True):
+    """[(family, L, kedges)]; fourier=False: the same families in units of dk = L / n"""
     out = []
     h = max(n // 2, 1)
     L = float(rng.choice([1000.0, 2 * np.pi, 7.5, 250.0]))
-    dk = dk_of(L)
-    kny = np.pi * n / L if n > 1 else dk
+    if not fourier:
+        L = float(n * (2.0 * np.pi / L))
+    dk = dk_of(L, n, fourier)
+    kny = (n / 2.0) * dk if n > 1 else dk
     nb = int(rng.integers(1, 7))
     # get_k_mu_edges, linear / log, ending below, at, above Nyquist, above the mesh diagonal
     for fam, kmax in (('lin-below', 0.61 * kny), ('lin-at', kny), ('lin-above', 1.37 * kny), ('lin-diag', 2.1 * kny)):
         ke, _ = ps.get_k_mu_edges(L, kmax, nb, 1, False)
         out.append((fam, L, ke))
-    ke, _ = ps.get_k_mu_edges(L, float(rng.choice([0.8, 1.0, 1.5, 2.0])) * kny, nb, 1, True)
+    kmx = float(rng.choice([0.8, 1.0, 1.5, 2.0])) * kny
+    if fourier:
+        ke, _ = ps.get_k_mu_edges(L, kmx, nb, 1, True)
+    else:
+        ke = np.geomspace((1.0 - 1.0e-4) * dk, max(kmx, 1.5 * dk), nb + 1)
     out.append(('log', L, ke))
     # starting above 0
     lo = float(rng.uniform(0.3, 1.2)) * dk
     out.append(('start-above-0', L, np.linspace(lo, lo + float(rng.uniform(0.5, 2.5)) * h * dk, nb + 1)))
     # dk = 1: edges exactly on attained |k|^2 values, strictly between, exactly at Nyquist
-    Lu = 2 * np.pi
+    Lu = 2 * np.pi if fourier else float(n)
     aq = attained_q(n)
     if dt == 'f4':
         cand = aq
@@ -352,10 +385,10 @@ def mu_families(rng, nm_hint=None):
 
 def settle_kmu(c):
     """nudge float-fragile edges (see TRUSTED); returns False when the case could not be made robust"""
-    dk = dk_of(c['L'])
+    dk = dkc(c)
     for _ in range(6):
         ke = np.array(c['kedges'], dtype=np.float64)
-        ek2 = sq_kedges(ke, c['L'], c['dtype'])
+        ek2 = sq_kedges(c, ke)
         if c['dtype'] == 'f8':
             bad = near_integer_fragile(ek2.astype(np.float64), ke / dk, dk)
             if bad:
@@ -376,7 +409,7 @@ def settle_kmu(c):
                 continue
         if 'pimax' in c and c['dtype'] == 'f8':
             lin = np.linspace(0.0, c['pimax'], c['npi'] + 1)
-            ep2 = sq_pi(c['pimax'], c['npi'], c['L'], 'f8')
+            ep2 = sq_pi(c)
             if near_integer_fragile(ep2, lin / dk, dk):
                 c['pimax'] = float(c['pimax'] * (1.0 + 2.0 ** -17))
                 c['nudged'] = c.get('nudged', 0) + 1
@@ -395,28 +428,32 @@ def gen_cases(ctx, ps, nmax=None, reps=1):
             h = max(n // 2, 1)
             for dt in ('f4', 'f8'):
                 fams = kedge_families(ctx, rng, n, dt, ps)
-                for fi, (fam, L, ke) in enumerate(fams):
+                fams_c = kedge_families(ctx, rng, n, dt, ps, fourier=False)
+                for fi in range(len(fams)):
+                    # a quarter of the bin_kmu / bin_kppi cases are configuration space (fourier=False, full mesh)
+                    fourier = (fi + n) % 4 != (0 if dt == 'f4' else 2)
+                    fam, L, ke = fams[fi] if fourier else fams_c[fi]
                     T = int(rng.choice(NTHREADS))
-                    base = dict(n=n, L=float(L), kedges=[float(x) for x in ke], dtype=dt, nthread=T,
+                    base = dict(n=n, L=float(L), fourier=fourier, kedges=[float(x) for x in ke], dtype=dt, nthread=T,
                                 assign=assignment(rng, n, T, str(rng.choice(['zero', 'rr', 'block', 'last', 'random', 'random']))),
                                 mesh_seed=seed0 + len(cases), kfam=fam)
                     # ---- bin_kmu
                     mfam, mu = mu_families(rng)
                     poles = [[], [0], [2], [0, 2], [0, 2, 4], [4, 0], [2, 4]][int(rng.integers(0, 7))]
                     c = dict(base, kind='kmu', muedges=[float(x) for x in mu], mufam=mfam, poles=poles)
-                    if n <= 8 and fi % 5 == 4:
+                    if n <= 8 and fi % 5 == 4 and fourier:
                         c['mesh_kind'] = 'generic'
                     elif fi % 5 == 2:
                         c['mesh_kind'] = 'signed'
                     cases.append(c)
                     # ---- bin_kppi on the same k edges
-                    dk = dk_of(L)
+                    dk = dk_of(L, n, fourier)
                     pfam, pimax = [('pi-below', float(rng.uniform(0.3, 0.9)) * h * dk), ('pi-at', h * dk),
                                    ('pi-above', float(rng.uniform(1.1, 2.0)) * h * dk),
                                    ('pi-at-exact', float(h) * dk)][fi % 4]
                     npi = int(rng.integers(1, 6))      # Npi >= 1 (a pi binning has at least one bin)
                     Lp = L
-                    if pfam == 'pi-at-exact' and L != 2 * np.pi:
+                    if pfam == 'pi-at-exact' and dk != 1.0:
                         pfam = 'pi-at'
                     cases.append(dict(base, kind='kppi', pimax=float(pimax), npi=npi, pifam=pfam, L=float(Lp)))
                 # ---- calc_pk_from_deltak (float32 accumulators, complex128 field)
@@ -451,18 +488,19 @@ def model_line(c):
     n = c['n']
     kz = n // 2 + 1
     half = half_mesh(c)
-    ek2 = sq_kedges(c['kedges'], c['L'], c['dtype'])
+    ek2 = sq_kedges(c)
     if c['kind'] == 'calc':
         half = raw_of(c, half)
     if float(half.max(initial=0)) == int(half.max(initial=0)) and np.all(half == np.rint(half)):
         mesh = ints(half.ravel())
     else:
         mesh = rats(half.ravel())
-    head = '%d %d %d %d %d %s %s' % (n, n, n, kz, c['nthread'], ints(c['assign']), rats(ek2))
+    head = '%d %d %d %d %d %s %s' % (n, n, n, kz if c.get('fourier', True) else n, c['nthread'], ints(c['assign']),
+                                     rats(ek2))
     if c['kind'] in ('kmu', 'calc'):
         em2 = sq_mu(c['muedges'], c['dtype'])
         return 'kmu %s %s %s %s' % (head, rats(em2), ints(c['poles']), mesh)
-    ep2 = sq_pi(c['pimax'], c['npi'], c['L'], c['dtype'])
+    ep2 = sq_pi(c)
     return 'kppi %s %s %s' % (head, rats(ep2), mesh)
 
 
@@ -524,11 +562,11 @@ def run_kernel(ps, c, how):
         if c['kind'] == 'kmu':
             fn = ps.bin_kmu.py_func if how == 'py' else ps.bin_kmu
             pol = np.array(c['poles'], dtype=np.int64) if c['poles'] else np.empty(0, 'i8')
-            r = fn(n, L, ke, np.array(c['muedges'], dtype=np.float64), half, pol, dtype=dt, fourier=True, nthread=nth)
+            r = fn(n, L, ke, np.array(c['muedges'], dtype=np.float64), half, pol, dtype=dt, fourier=c.get('fourier', True), nthread=nth)
             return dict(mean=r[0], counts=r[1], poles=r[2], cpoles=r[3], kavg=r[4])
         if c['kind'] == 'kppi':
             fn = ps.bin_kppi.py_func if how == 'py' else ps.bin_kppi
-            r = fn(n, L, ke, c['pimax'], c['npi'], half, dtype=dt, fourier=True, nthread=nth)
+            r = fn(n, L, ke, c['pimax'], c['npi'], half, dtype=dt, fourier=c.get('fourier', True), nthread=nth)
             return dict(mean=r[0], counts=r[1])
         # calc_pk_from_deltak
         f2 = None
@@ -633,32 +671,34 @@ class Checker:
         """c: case, m: parsed model result, runs: {label: impl result}"""
         ctx = self.ctx
         kind = c['kind']
-        ek2 = sq_kedges(c['kedges'], c['L'], c['dtype']).astype(np.float64)
+        ek2 = sq_kedges(c).astype(np.float64)
         cls = classify_case(c, ek2) if len(ek2) else 'no-edges'
         half = half_mesh(c)
         if kind == 'calc':
             half = raw_of(c, half)
         n = c['n']
-        dk = dk_of(c['L'])
+        dk = dkc(c)
         mul = c['L'] ** 3 if kind == 'calc' else 1.0
         if kind in ('kmu', 'calc'):
             em2 = sq_mu(c['muedges'], c['dtype']).astype(np.float64)
-            orc = oracle_kmu(n, ek2, em2, c['poles'], half)
+            orc = oracle_kmu(n, ek2, em2, c['poles'], full_of(c, half))
             if orc['mu_unbinned']:
                 ctx.count('skipped:mu-edges-short')
                 return
         else:
-            ep2 = sq_pi(c['pimax'], c['npi'], c['L'], c['dtype']).astype(np.float64)
-            orc = oracle_kppi(n, ek2, ep2, half)
+            ep2 = sq_pi(c).astype(np.float64)
+            orc = oracle_kppi(n, ek2, ep2, full_of(c, half))
         nbinned = int(orc['counts'].sum())
         ctx.case(dict(kind=kind, n=n, dtype=c['dtype'], kfam=c.get('kfam'), mufam=c.get('mufam'), pifam=c.get('pifam'),
                       kedges=c['kedges'], muedges=c.get('muedges'), pimax=c.get('pimax'), npi=c.get('npi'),
-                      poles=c.get('poles'), nthread=c['nthread'], L=c['L'], mesh_seed=c['mesh_seed']),
+                      poles=c.get('poles'), nthread=c['nthread'], L=c['L'], mesh_seed=c['mesh_seed'],
+                      fourier=c.get('fourier', True)),
                  nontrivial=nbinned > 0)
         ctx.count('kind:' + kind)
         ctx.count('n=%d' % n)
         ctx.count('dtype:' + c['dtype'])
         ctx.count('kfam:' + str(c.get('kfam')))
+        ctx.count('space:' + ('fourier' if c.get('fourier', True) else 'configuration(fourier=False, full mesh)'))
         ctx.count('mesh:' + cls)
         if kind != 'kppi':
             ctx.count('mufam:%s' % c.get('mufam'))
@@ -760,11 +800,11 @@ def needs_boundscheck(c):
         return True
     n = c['n']
     h = n // 2
-    ek2 = sq_kedges(c['kedges'], c['L'], c['dtype'])
+    ek2 = sq_kedges(c)
     if len(ek2) == 0:
         return False
     if c['kind'] == 'kppi':
-        ep2 = sq_pi(c['pimax'], c['npi'], c['L'], c['dtype'])
+        ep2 = sq_pi(c)
         return float(ep2[-1]) <= h * h or float(ek2[-1]) <= 2 * h * h
     return float(ek2[-1]) <= 3 * h * h
 
@@ -876,7 +916,10 @@ def run(ctx):
     cases = corpus + fault_cases(ctx) + gen_cases(ctx, ps)
     process(ctx, ps, cases)
     pn_check(ctx, ps)
+    pn_odd_check(ctx, ps)
     small_protocol_checks(ctx)
+    edges_check(ctx, ps)
+    sibling_observations(ctx, ps)
     ctx.extra['scope'] = 'all n in 1..%d x float32/float64 x 10 k-edge families x bin_kmu/bin_kppi/calc_pk_from_deltak' % ctx.pick(12, 24)
 
 
@@ -906,6 +949,182 @@ def pn_check(ctx, ps):
         ref = float(np.polynomial.legendre.legval(np.sqrt(x), [0.0] * n + [1.0]))
         if got == 'ok' and abs(v - ref) > 1e-7:
             ctx.fail('P_n(mu^2, n) is not the Legendre polynomial P_n(mu)', {'n': n, 'x': x}, v, ref, key='P_n')
+
+
+def pn_odd_check(ctx, ps):
+    """P_n(mu^2, n) for every order 0..11 against the model's mu-parametrised form (x ** (0.5 (n - 2k)) = mu ** (n - 2k)
+    for the non-negative root mu) and numpy's Legendre evaluation; mu dyadic so that mu^2 is exact"""
+    mus = [0.0, 1.0, 0.5, 0.25, 0.75, 0.125, 0.875] + [float(np.round(v * 256) / 256) for v in ctx.rng.uniform(0, 1, 8)]
+    lines, meta = [], []
+    for n in range(0, 12):
+        for mu in mus:
+            lines.append('pnmu %d %s' % (n, rat(mu)))
+            meta.append((n, mu))
+    res = ctx.driver.query(lines)
+    for (n, mu), s in zip(meta, res):
+        ctx.count('pn-mu-evals(all orders)')
+        try:
+            v = float(ps.P_n(np.float64(mu * mu), n, np.float64))
+            got = 'ok'
+        except ValueError:
+            got = 'rejected'
+        if s.startswith('err '):
+            if s[4:] != got:
+                ctx.disagree('P_n fault (mu form)', {'n': n, 'mu': mu}, s, got)
+            continue
+        mv = float(Fraction(s[3:]))
+        if got != 'ok' or abs(v - mv) > 1e-9 * max(1.0, abs(mv)):
+            ctx.disagree('P_n value (mu form)', {'n': n, 'mu': mu}, mv, v if got == 'ok' else got)
+        ref = float(np.polynomial.legendre.legval(mu, [0.0] * n + [1.0]))
+        if got == 'ok' and abs(v - ref) > 1e-7:
+            ctx.fail('P_n(mu^2, n) is not the Legendre polynomial P_n(mu)', {'n': n, 'mu': mu}, v, ref, key='P_n')
+
+
+def ulp_dist(x, exact):
+    """|x - exact| in units of the spacing of float64 at x (exact: Fraction)"""
+    if Fraction(x) == exact:
+        return 0.0
+    sp = float(np.spacing(abs(x))) if x != 0 else 5e-324
+    return float(abs(Fraction(x) - exact) / Fraction(sp))
+
+
+def edges_check(ctx, ps):
+    """get_k_mu_edges against the model's exact-rational linspace (linear k edges, mu edges) and, for logk, against
+    the defining relation of a geometric sequence; plus the preconditions the theorems need"""
+    rng = ctx.rng
+    cfgs = []
+    for kb in (1, 2, 3, 4, 5, 7, 8, 16, 25):
+        for mb in (1, 2, 3, 4, 6):
+            L = float(rng.choice([1000.0, 2 * np.pi, 7.5, 250.0, 512.0]))
+            kmax = float(rng.choice([1.0, 0.5, 3.0, float(rng.uniform(0.05, 4.0)), np.pi * 16 / L]))
+            cfgs.append((L, kmax, kb, mb))
+    lines = []
+    for (L, kmax, kb, mb) in cfgs:
+        lines.append('linspace 0 %s %d' % (rat(kmax), kb + 1))
+        lines.append('linspace 0 1 %d' % (mb + 1))
+    res = ctx.driver.query(lines)
+    worst = {'linear-k': 0.0, 'mu': 0.0, 'log-k(relative, in units of N*2^-52)': 0.0}
+    nexact = 0
+    for idx, (L, kmax, kb, mb) in enumerate(cfgs):
+        case = {'L': L, 'kmax': kmax, 'kbins': kb, 'mubins': mb}
+        ke, mu = ps.get_k_mu_edges(L, kmax, kb, mb, False)
+        mk = [Fraction(v) for v in res[2 * idx].split(',')]
+        mm = [Fraction(v) for v in res[2 * idx + 1].split(',')]
+        ctx.count('get_k_mu_edges-configs')
+        for name, real, model in (('linear-k', ke, mk), ('mu', mu, mm)):
+            if len(real) != len(model):
+                ctx.disagree('get_k_mu_edges %s length' % name, case, len(model), len(real))
+                continue
+            d = max(ulp_dist(float(x), q) for x, q in zip(real, model))
+            worst[name] = max(worst[name], d)
+            nexact += int(d == 0.0)
+            # endpoints exact; interior: numpy computes fl(i * fl((b - a) / N)), two roundings, so within 2 ulp of the
+            # exact rational (bit-exact whenever step and products are representable)
+            if float(real[0]) != float(model[0]) or float(real[-1]) != float(model[-1]) or d > 2.0:
+                ctx.disagree('get_k_mu_edges %s edges differ from linspace by more than 2 ulp' % name, case,
+                             [str(q) for q in model], [float(x) for x in real])
+            # the property's preconditions (what kmu_search_inbounds / get_k_mu_edges_wellformed state)
+            r = np.asarray(real, dtype=np.float64)
+            if not (np.all(np.diff(r) > 0) and r[0] == 0.0 and (name != 'mu' or r[-1] == 1.0)):
+                ctx.fail('get_k_mu_edges %s edges are not strictly increasing from 0%s' % (name, ' to 1' if name == 'mu' else ''),
+                         case, [float(x) for x in real], 'strictly increasing', key='edges')
+        # log k edges: geomspace(k_min, k_max, kbins + 1) with k_min = (1 - 1e-4) 2 pi / L
+        if kmax > 2 * np.pi / L:
+            kl, _ = ps.get_k_mu_edges(L, kmax, kb, mb, True)
+            kmin = (1.0 - 1.0e-4) * 2.0 * np.pi / L
+            a, b = Fraction(kmin), Fraction(kmax)
+            ok = len(kl) == kb + 1 and float(kl[0]) == kmin and float(kl[-1]) == kmax and bool(np.all(np.diff(kl) > 0))
+            for i, x in enumerate(kl):
+                # x^N = a^(N-i) b^i  up to N roundings
+                rel = abs(Fraction(float(x)) ** kb / (a ** (kb - i) * b ** i) - 1)
+                worst['log-k(relative, in units of N*2^-52)'] = max(worst['log-k(relative, in units of N*2^-52)'],
+                                                                    float(rel) / (kb * 2.0 ** -52))
+                if rel > 64 * kb * 2.0 ** -52:      # 10 ** linspace(log10 a, log10 b): the power amplifies the exponent's rounding
+                    ok = False
+            if not ok:
+                ctx.fail('get_k_mu_edges log k edges are not the geometric sequence from k_min to k_max', case,
+                         [float(x) for x in kl], 'geometric sequence within 64 ulp, strictly increasing, exact end points', key='edges')
+        # array-like binnings are returned unchanged
+        arr_k, arr_mu = np.array([0.1, 0.2, 0.7]), np.array([0.0, 0.3, 1.0])
+        rk, rm = ps.get_k_mu_edges(L, kmax, arr_k, arr_mu, bool(idx % 2))
+        if rk is not arr_k or rm is not arr_mu:
+            ctx.disagree('get_k_mu_edges array-like binnings returned unchanged', case, 'same objects', 'different')
+    ctx.extra['get_k_mu_edges'] = {'configs': len(cfgs), 'edge_lists_bit_exact': nexact,
+                                   'worst_ulp_distance_to_exact_rational': worst}
+
+
+def sibling_observations(ctx, ps):
+    """OBSERVATIONS (never a failure): expand_poles_to_3d, get_smoothing, get_delta_mu2 fold with `i < n1d // 2`.
+    Each is run (py_func: the same source) and compared with a reference built on the model's `foldOld` (as coded)
+    and with one built on the fftfreq convention (`fold`); what differs for odd n is recorded in the evidence."""
+    nmax = ctx.pick(7, 10)
+    ns = list(range(1, nmax + 1))
+    lines = []
+    for n in ns:
+        for i in range(n):
+            lines.append('foldold %d %d' % (n, i))
+            lines.append('fold %d %d' % (n, i))
+    res = [int(v) for v in ctx.driver.query(lines)]
+    obs = {}
+    pos = 0
+    L, R = 10.0, 1.3
+    dk = 2.0 * np.pi / L
+    rng = np.random.default_rng(int(ctx.rng.integers(0, 2 ** 31)))
+    for n in ns:
+        fo = np.array(res[pos:pos + 2 * n:2]); ff = np.array(res[pos + 1:pos + 2 * n:2]); pos += 2 * n
+        if [int(v) for v in np.rint(np.fft.fftfreq(n) * n)] != ff.tolist():
+            ctx.disagree('model fold vs numpy.fft.fftfreq', {'n': n}, ff.tolist(), 'fftfreq')
+        kz = n // 2 + 1
+        K = np.arange(kz)
+
+        def grids(f):
+            q = (f[:, None, None] ** 2 + f[None, :, None] ** 2 + K[None, None, :] ** 2).astype(np.float64)
+            mu2 = np.where(q > 0, (K[None, None, :] ** 2) / np.where(q > 0, q, 1.0), 0.0)
+            return q, mu2
+        delta = (rng.normal(size=(n, n, kz)) + 1j * rng.normal(size=(n, n, kz))).astype(np.complex128)
+        k_ell = np.linspace(0.0, 2.5 * n * dk / 2, 12)
+        poles = np.array([0, 2, 4])
+        P_ell = rng.normal(size=(3, 12)) + 3.0
+
+        def refs(f):
+            q, mu2 = grids(f)
+            kk = np.sqrt(q) * dk
+            ex = np.zeros_like(q)
+            for ip, ell in enumerate(poles):
+                t = np.interp(kk, k_ell, P_ell[ip])
+                if ell != 0:
+                    t = t * np.polynomial.legendre.legval(np.sqrt(mu2), [0.0] * int(ell) + [1.0])
+                ex += t
+            return {'get_smoothing': np.exp(-q * dk ** 2 * R ** 2 / 2.0), 'get_delta_mu2': delta * mu2,
+                    'expand_poles_to_3d': ex}
+        real = {'get_smoothing': ps.get_smoothing.py_func(n, L, R, dtype=np.float64),
+                'get_delta_mu2': ps.get_delta_mu2.py_func(delta, n, np.complex128, np.float64),
+                'expand_poles_to_3d': ps.expand_poles_to_3d.py_func(k_ell, P_ell, n, L, poles, dtype=np.float64)}
+        rc, rf = refs(fo), refs(ff)
+        for name in real:
+            as_coded = bool(np.allclose(real[name], rc[name], rtol=2e-5, atol=1e-7))
+            as_fft = bool(np.allclose(real[name], rf[name], rtol=2e-5, atol=1e-7))
+            diff = ~np.isclose(real[name], rf[name], rtol=2e-5, atol=1e-7)
+            ctx.count('observation:%s:%s' % (name, 'as-coded-fold' if as_coded else 'fftfreq-fold' if as_fft else 'neither'))
+            ent = obs.setdefault(name, {'matches_fold_as_coded(i < n//2)': [], 'matches_fftfreq_convention': [],
+                                        'cells_differing_from_fftfreq_convention': {}, 'unexplained': []})
+            if as_coded:
+                ent['matches_fold_as_coded(i < n//2)'].append(n)
+            if as_fft:
+                ent['matches_fftfreq_convention'].append(n)
+            if not as_coded and not as_fft:
+                ent['unexplained'].append(n)
+            if diff.any():
+                rows = sorted(set(int(v) for v in np.argwhere(diff)[:, 0]) | set(int(v) for v in np.argwhere(diff)[:, 1]))
+                den = np.maximum(np.abs(rf[name]), 1e-300)
+                ent['cells_differing_from_fftfreq_convention'][str(n)] = {
+                    'n_cells': int(diff.sum()), 'of': int(diff.size), 'row_or_column_indices': rows,
+                    'max_relative_difference': float(np.max(np.abs(real[name] - rf[name])[diff] / den[diff]))}
+    ctx.extra['sibling_fold_observations'] = {
+        'note': 'not part of C08 and never a failure: these loops fold with `i < n1d // 2`; by theorem '
+                'sibling_fold_differs_only_odd_middle this differs from fftfreq only on the middle index (n-1)/2 of an odd '
+                'mesh, which is sent to -(n+1)/2',
+        'meshes': ns, 'functions': obs}
 
 
 def small_protocol_checks(ctx):
